@@ -46,6 +46,7 @@ func isCallOfParam(v ssa.Value, cb *ssa.Parameter, arg ssa.Value) bool {
 func runC11(p *core.Program, r *core.Report) {
 	c := rc{p, r}
 	noAnswerBeforeTheScan(c, "gogu.Union", "gogu.Intersection", "gogu.IntersectionBy", "gogu.Difference", "gogu.DifferenceBy", "gogu.Without", "gogu.Unique", "gogu.UniqueBy", "gogu.Duplicate", "gogu.DuplicateWithIndex")
+	resultUntouchedAfterTheScan(c, "gogu.Union", "gogu.Intersection", "gogu.IntersectionBy", "gogu.Difference", "gogu.DifferenceBy", "gogu.Without", "gogu.Unique", "gogu.UniqueBy", "gogu.Duplicate", "gogu.DuplicateWithIndex")
 	hygiene(c, "slice.go")
 	containsFn := p.Func("gogu.Contains")
 
